@@ -148,7 +148,7 @@ fn achievable(attrs: &DifficultyAttributes, i: &In, misses: u32, out: &ScoreStat
         DifficultyAttributes::Osu(a) => {
             let n = a.n_objects().saturating_sub(misses);
             let lazer = i.lazer.unwrap_or(true);
-            let origin = match (lazer, i.cl) {
+            let origin = match (lazer, c12::cl_effective(GameMode::Osu, i)) {
                 (false, _) => OsuScoreOrigin::Stable,
                 (true, false) => OsuScoreOrigin::WithSliderAcc {
                     max_large_ticks: a.n_large_ticks,
@@ -239,7 +239,7 @@ fn out_accuracy(attrs: &DifficultyAttributes, i: &In, out: &ScoreState) -> f64 {
     match attrs {
         DifficultyAttributes::Osu(a) => {
             let lazer = i.lazer.unwrap_or(true);
-            let origin = match (lazer, i.cl) {
+            let origin = match (lazer, c12::cl_effective(GameMode::Osu, i)) {
                 (false, _) => OsuScoreOrigin::Stable,
                 (true, false) => OsuScoreOrigin::WithSliderAcc {
                     max_large_ticks: a.n_large_ticks,
@@ -305,7 +305,7 @@ fn check_one_with<'m>(
     };
     let budget = c12::budget(attrs);
     let want_m = i.misses.unwrap_or(0).min(budget);
-    let origin_name = match (i.lazer.unwrap_or(true), i.cl) {
+    let origin_name = match (i.lazer.unwrap_or(true), c12::cl_effective(mode, i)) {
         (false, _) => "stable",
         (true, false) => "lazer",
         (true, true) => "lazer+CL",
@@ -384,6 +384,8 @@ pub fn case(ctx: &mut Ctx, idx: u64) {
                     worst,
                     lazer,
                     cl,
+                    cl_setting: None,
+                    lazer_via_setter: n_cfg % 2 == 1,
                     passed: None,
                 };
                 // grid of target accuracies
@@ -493,6 +495,8 @@ fn via_map(ctx: &mut Ctx, rng: &mut Rng) {
             worst: mode != GameMode::Catch && rng.chance(0.5),
             lazer,
             cl,
+            cl_setting: if mode == GameMode::Osu && cl && lazer != Some(false) { *rng.pick(&[None, Some(true), Some(false)]) } else { None },
+            lazer_via_setter: rng.chance(0.5),
             passed: None,
         };
         let mut targets: Vec<f64> = (0..6).map(|_| rng.frange(0.0, 100.0)).collect();
